@@ -83,6 +83,7 @@ type VM struct {
 	mapIDs    int
 	syncMaps  map[*Value]*Map
 	onceDone  map[*Value]bool
+	pools     map[*Value][]Value
 	permUsed  int
 	// PermuteBudget bounds how many ranged maps per path may take a non-insertion order (0 = no bound)
 	PermuteBudget int
